@@ -18,10 +18,12 @@ Definition single_stop (progs : list (list op)) : Prop :=
   forall t1 p1 i1 t2 p2 i2, nth_error progs t1 = Some p1 -> nth_error p1 i1 = Some OStop ->
                             nth_error progs t2 = Some p2 -> nth_error p2 i2 = Some OStop -> t1 = t2 /\ i1 = i2.
 
-(* stop() has returned => every task queued in front of its marker has been called *)
+(* stop() has returned => every task queued in front of its marker - and not behind an earlier marker - has been called *)
+Definition no_marker_before (s : st) (n : nat) : Prop :=
+  forall j y, (j < n)%nat -> nth_error (qall s) j = Some (Some y) -> is_marker y = false.
 Definition stop_complete (s : st) : Prop :=
   forall t th k n, nth_error (threads s) t = Some th -> In (RStop true k n) (results th) ->
-  forall j x, (j < k)%nat -> nth_error (qall s) j = Some (Some x) -> is_marker x = false -> In x (map fst (calls s)).
+  forall j x, (j < k)%nat -> nth_error (qall s) j = Some (Some x) -> no_marker_before s (S j) -> In x (map fst (calls s)).
 
 Definition no_regions (progs : list (list op)) : Prop := forall p, In p progs -> ~ In OLock p.
 
@@ -467,11 +469,425 @@ Proof. intros bits progs s R. eapply inv_reachable; eauto using invB_init, invB_
 (* the pop index never moves back: a pusher that has become enabled stays enabled *)
 Lemma qhead_mono : forall s t s', gstep kc s t = Some s' -> (qhead s <= qhead s')%nat /\ qbits s' = qbits s.
 Proof. intros s t s' H. step_cases H; try use_consume s; simp; split; try reflexivity; lia. Qed.
+
+(* ---- at most once: calls follow ticket order ---- *)
+Lemma ss_app_iff : forall (a b : list nat), StronglySorted Nat.lt (a ++ b) <->
+  StronglySorted Nat.lt a /\ StronglySorted Nat.lt b /\ (forall x y, In x a -> In y b -> (x < y)%nat).
+Proof.
+  induction a as [|h a IH]; intro b; cbn.
+  - split; [intro H; repeat split; [constructor | assumption | intros x y []] | intros (_ & H & _); assumption].
+  - split.
+    + intro H. inversion H as [|? ? S F]; subst. apply IH in S as (S1 & S2 & S3). rewrite Forall_app in F. destruct F as [F1 F2].
+      split; [constructor; assumption|]. split; [assumption|].
+      intros x y [<-|Hx] Hy; [rewrite Forall_forall in F2; apply F2; assumption | apply S3; assumption].
+    + intros (S1 & S2 & S3). inversion S1 as [|? ? S F]; subst. constructor.
+      * apply IH. split; [assumption|]. split; [assumption|]. intros x y Hx Hy. apply S3; [right|]; assumption.
+      * apply Forall_app. split; [assumption|]. apply Forall_forall. intros y Hy. apply S3; [left; reflexivity | assumption].
+Qed.
+
+Lemma ss_seq : forall n h, StronglySorted Nat.lt (seq h n).
+Proof.
+  induction n as [|n IH]; intro h; cbn; constructor; [apply IH|].
+  apply Forall_forall. intros x Hx. apply in_seq in Hx. lia.
+Qed.
+
+Lemma ss_nodup : forall l, StronglySorted Nat.lt l -> NoDup l.
+Proof.
+  induction l as [|h l IH]; intro H; constructor; inversion H as [|? ? S F]; subst; [|auto].
+  intro Hin. rewrite Forall_forall in F. specialize (F _ Hin). lia.
+Qed.
+
+Definition seqt (s : st) : list nat :=
+  map tk_ticket (map fst (calls s)) ++ map tk_ticket (skipn (cpos (col s)) (ctasks (col s))).
+
+Record InvC (s : st) : Prop := {
+  c_q1 : forall j x, nth_error (qall s) j = Some (Some x) -> tk_ticket x = j;
+  c_q3 : (qhead s <= length (qall s))%nat /\ forall j, (j < qhead s)%nat -> exists x, nth_error (qall s) j = Some (Some x);
+  c_k1 : StronglySorted Nat.lt (seqt s) /\ Forall (fun k => (k < qhead s)%nat) (seqt s);
+  c_k2 : cp (col s) = CConsume -> cindex (col s) = length (ctasks (col s));
+  c_c2 : forall x, In x (map fst (calls s)) -> In (Some x) (qall s) }.
+
+Lemma invC_init : forall bits progs, InvC (init bits progs).
+Proof.
+  intros bits progs. constructor; cbn.
+  - intros j x H. destruct j; discriminate.
+  - split; [lia | intros j H; lia].
+  - unfold seqt. cbn. split; constructor.
+  - discriminate.
+  - intros x [].
+Qed.
+
+Lemma pub_prefix_length : forall n l, (length (pub_prefix n l) <= length l)%nat.
+Proof. induction n as [|n IH]; intros [|[x|] l]; cbn; try lia. specialize (IH l). lia. Qed.
+
+Lemma pub_prefix_tickets : forall n l h,
+  (forall i x, nth_error l i = Some (Some x) -> tk_ticket x = (h + i)%nat) ->
+  map tk_ticket (pub_prefix n l) = seq h (length (pub_prefix n l)).
+Proof.
+  induction n as [|n IH]; intros l h H; [reflexivity|].
+  destruct l as [|[x|] l]; cbn; try reflexivity.
+  rewrite (H 0%nat x eq_refl), Nat.add_0_r. f_equal. apply IH. intros i y Hy. rewrite (H (S i) y Hy). lia.
+Qed.
+
+Lemma nth_error_skipn : forall A n (l : list A) i, nth_error (skipn n l) i = nth_error l (n + i).
+Proof. induction n as [|n IH]; intros [|a l] i; cbn; try reflexivity; [destruct i; reflexivity | apply IH]. Qed.
+
+Lemma got_tickets : forall s, InvC s -> map tk_ticket (got s) = seq (qhead s) (length (got s)).
+Proof.
+  intros s C. unfold got. apply pub_prefix_tickets. intros i x H. rewrite nth_error_skipn in H. exact (c_q1 _ C _ _ H).
+Qed.
+
+Lemma got_length : forall s, InvC s -> (qhead s + length (got s) <= length (qall s))%nat.
+Proof.
+  intros s C. unfold got. pose proof (pub_prefix_length (Z.to_nat (consume_num (batch_of (Z.of_nat (cap s))))) (skipn (qhead s) (qall s))) as L.
+  rewrite skipn_length in L. destruct (c_q3 _ C). lia.
+Qed.
+
+Lemma got_published : forall s i x, nth_error (got s) i = Some x -> nth_error (qall s) (qhead s + i) = Some (Some x).
+Proof. intros s i x H. unfold got in H. apply pub_prefix_nth in H. rewrite nth_error_skipn in H. exact H. Qed.
+
+Lemma skipn_cur : forall A i (l : list A) x, nth_error l i = Some x -> skipn i l = x :: skipn (S i) l.
+Proof. induction i as [|i IH]; intros [|a l] x H; cbn in *; try discriminate; [congruence | apply IH; assumption]. Qed.
+
+Lemma kept_tickets : forall s k1 r1 d1 k2 r2 d2 n1 r0, InvC s ->
+  chunk_cb (firstn n1 (got s)) r0 = (k1, r1, d1) -> chunk_cb (skipn n1 (got s)) r1 = (k2, r2, d2) ->
+  StronglySorted Nat.lt (map tk_ticket (k1 ++ k2)) /\
+  Forall (fun k => (qhead s <= k < qhead s + length (got s))%nat) (map tk_ticket (k1 ++ k2)).
+Proof.
+  intros s k1 r1 d1 k2 r2 d2 n1 r0 C E1 E2.
+  apply chunk_cb_spec in E1 as (L1 & _). apply chunk_cb_spec in E2 as (L2 & _).
+  pose proof (got_tickets s C) as T. pose proof (ss_seq (length (got s)) (qhead s)) as S. rewrite <- T in S.
+  rewrite <- (firstn_skipn n1 (got s)), L1, L2 in S. rewrite !map_app in S.
+  apply ss_app_iff in S as (Sa & Sb & Sab). apply ss_app_iff in Sa as (Sk1 & Sd1 & _). apply ss_app_iff in Sb as (Sk2 & _ & _).
+  split.
+  - rewrite map_app. apply ss_app_iff. repeat split; auto. intros x y Hx Hy. apply Sab; apply in_or_app; auto.
+  - apply Forall_forall. intros k Hk.
+    assert (In k (map tk_ticket (got s))).
+    { rewrite <- (firstn_skipn n1 (got s)), L1, L2, !map_app. rewrite map_app in Hk. apply in_app_or in Hk as [Hk|Hk];
+        apply in_or_app; [left | right]; apply in_or_app; left; assumption. }
+    rewrite T in H. apply in_seq in H. lia.
+Qed.
+
+Lemma stepC_q1 : forall s t s', InvA s -> InvC s -> gstep kc s t = Some s' ->
+  forall j x, nth_error (qall s') j = Some (Some x) -> tk_ticket x = j.
+Proof.
+  intros s t s' I C H j x Hj. pose proof (c_q1 _ C) as Q1.
+  step_cases H; try use_consume s; simp; try (apply Q1; assumption); try (apply nth_app_some in Hj; auto).
+  all: revert Hj; rewrite nth_error_lookup; destruct (Nat.eqb_spec j (tk_ticket x0)) as [->|]; intro Hj; [|auto].
+  all: rewrite (a_q2 _ I _ _ _ _ Hth Hpc) in Hj; injection Hj as <-; reflexivity.
+Qed.
+
+Lemma stepC_q3 : forall s t s', InvA s -> InvC s -> gstep kc s t = Some s' ->
+  (qhead s' <= length (qall s'))%nat /\ forall j, (j < qhead s')%nat -> exists x, nth_error (qall s') j = Some (Some x).
+Proof.
+  intros s t s' I C H. destruct (c_q3 _ C) as [L P].
+  step_cases H; try use_consume s; simp; try (split; assumption).
+  1,2: (rewrite app_length; split; [cbn; lia|]; intros j Hj; destruct (P j Hj) as [x Hx]; exists x; rewrite nth_error_app1; [assumption | lia]).
+  1,2: (rewrite set_nth_length; split; [assumption|]; intros j Hj; destruct (P j Hj) as [y Hy]; exists y;
+        rewrite nth_set_other; [assumption|]; intro; subst j; rewrite (a_q2 _ I _ _ _ _ Hth Hpc) in Hy; discriminate).
+  split; [apply got_length; assumption|]. intros j Hj.
+  destruct (Nat.lt_ge_cases j (qhead s)) as [Lt|Ge]; [auto|].
+  destruct (nth_error (got s) (j - qhead s)) as [x|] eqn:E.
+  - exists x. apply got_published in E. replace (qhead s + (j - qhead s))%nat with j in E by lia. exact E.
+  - apply nth_error_None in E. lia.
+Qed.
+
+Lemma skipn_all2 : forall A (l : list A) n, (length l <= n)%nat -> skipn n l = [].
+Proof. induction l as [|a l IH]; intros [|n] H; cbn in *; try reflexivity; try lia. apply IH. lia. Qed.
+
+Lemma stepC_k : forall s t s', InvA s -> InvC s -> gstep kc s t = Some s' ->
+  (StronglySorted Nat.lt (seqt s') /\ Forall (fun k => (k < qhead s')%nat) (seqt s')) /\
+  (cp (col s') = CConsume -> cindex (col s') = length (ctasks (col s'))).
+Proof.
+  intros s t s' I C H. pose proof (c_k1 _ C) as K. pose proof (c_k2 _ C) as K2.
+  destruct index_consts as [X1 X2].
+  step_cases H; try use_consume s; unfold seqt, cpos in *; simp; try (split; [exact K | exact K2]).
+  all: try rewrite Hcp in K.
+  all: try (split; [exact K | discriminate]).
+  all: try (split; [exact K | intros _; eapply need_consume_spec; eassumption]).
+  all: try (rewrite Nat.add_0_r; split; [exact K | discriminate]).
+  all: try (rewrite index_advance_spec; split; [exact K | discriminate]).
+  all: try ((* a call *) split; [|discriminate];
+            match goal with N : nth_error (ctasks (col _)) _ = Some _ |- _ => rewrite (skipn_cur _ _ _ _ N) in K end;
+            rewrite !map_app; cbn [map fst]; rewrite <- app_assoc; cbn [app];
+            replace (cindex (col s) + S r)%nat with (S (cindex (col s) + r)) by lia; exact K).
+  - (* restart *) rewrite X1. cbn [skipn map]. rewrite app_nil_r. destruct K as [S F]. apply ss_app_iff in S as (S & _). apply Forall_app in F as (F & _).
+    split; [split; assumption | discriminate].
+  - (* consume *) rewrite X2. cbn [skipn]. specialize (K2 eq_refl). rewrite skipn_all2 in K by lia. cbn [map] in K. rewrite app_nil_r in K.
+    destruct K as [S F]. destruct (kept_tickets _ _ _ _ _ _ _ _ _ C E1 E2) as [S' F'].
+    split; [|discriminate]. rewrite Forall_forall in F, F'. split.
+    + apply ss_app_iff. repeat split; auto. intros x y Hx Hy. specialize (F _ Hx). specialize (F' _ Hy). lia.
+    + apply Forall_forall. intros k Hk. apply in_app_or in Hk as [Hk|Hk]; [specialize (F _ Hk) | specialize (F' _ Hk)]; lia.
+Qed.
+
+Lemma stepC_c2 : forall s t s', InvA s -> InvC s -> gstep kc s t = Some s' -> forall x, In x (map fst (calls s')) -> In (Some x) (qall s').
+Proof.
+  intros s t s' I C H x Hx. pose proof (c_c2 _ C) as C2.
+  step_cases H; try use_consume s; simp; try (apply C2; assumption).
+  1,2: apply in_or_app; left; apply C2; assumption.
+  1,2: (eapply In_set_none; [eapply (a_q2 _ I); eassumption | apply C2; assumption]).
+  all: rewrite map_app in Hx; apply in_app_or in Hx as [Hx|[<-|[]]]; [apply C2; assumption|]; cbn [fst];
+    apply (a_c1 _ I); eapply nth_error_In; eassumption.
+Qed.
+
+Theorem invC_step : forall s t s', InvA s -> InvC s -> gstep kc s t = Some s' -> InvC s'.
+Proof.
+  intros s t s' I C H. destruct (stepC_k _ _ _ I C H) as [K1 K2].
+  constructor; eauto using stepC_q1, stepC_q3, stepC_c2.
+Qed.
+
+Lemma invAC_reach : forall bits progs s, Reach kc bits progs s -> InvA s /\ InvC s.
+Proof.
+  intros bits progs s R. eapply (inv_reachable st (gstep kc) (fun s => InvA s /\ InvC s)); eauto.
+  - split; [apply invA_init | apply invC_init].
+  - intros s0 t s1 [I C] H. split; [eapply invA_step | eapply invC_step]; eauto.
+Qed.
+
+(* ---- nothing popped is lost; with the repaired loop nothing in front of the first marker is discarded ---- *)
+Lemma pub_stable : forall s t s' j x, InvA s -> gstep kc s t = Some s' ->
+  nth_error (qall s) j = Some (Some x) -> nth_error (qall s') j = Some (Some x).
+Proof.
+  intros s t s' j x I H Hj.
+  step_cases H; try use_consume s; simp; try assumption.
+  1,2: (rewrite nth_error_app1; [assumption | apply nth_error_Some; congruence]).
+  all: rewrite nth_set_other; [assumption|]; intro; subst j; rewrite (a_q2 _ I _ _ _ _ Hth Hpc) in Hj; discriminate.
+Qed.
+
+Lemma pub_stable_rev : forall s t s' j x, InvA s -> InvC s -> gstep kc s t = Some s' -> (j < qhead s)%nat ->
+  nth_error (qall s') j = Some (Some x) -> nth_error (qall s) j = Some (Some x).
+Proof.
+  intros s t s' j x I C H L Hj. destruct (proj2 (c_q3 _ C) j L) as [y Hy].
+  pose proof (pub_stable _ _ _ _ _ I H Hy) as Hy'. congruence.
+Qed.
+
+Lemma calls_mono : forall s t s' x, gstep kc s t = Some s' -> In x (map fst (calls s)) -> In x (map fst (calls s')).
+Proof.
+  intros s t s' x H Hx. step_cases H; try use_consume s; simp; try assumption.
+  all: rewrite map_app; apply in_or_app; left; assumption.
+Qed.
+
+Lemma nmb_mono : forall s t s' n, InvA s -> gstep kc s t = Some s' -> no_marker_before s' n -> no_marker_before s n.
+Proof. intros s t s' n I H N j y L Hj. eapply N; eauto using pub_stable. Qed.
+
+Definition marker_at (s : st) (m : nat) : Prop := exists y, nth_error (qall s) m = Some (Some y) /\ is_marker y = true.
+Lemma marker_at_mono : forall s t s' m, InvA s -> gstep kc s t = Some s' -> marker_at s m -> marker_at s' m.
+Proof. intros s t s' m I H (y & Hy & M). exists y. eauto using pub_stable. Qed.
+
+Definition called_before (s : st) (m : nat) : Prop :=
+  forall j x, (j < m)%nat -> nth_error (qall s) j = Some (Some x) -> no_marker_before s (S j) -> In x (map fst (calls s)).
+
+Record InvD (s : st) : Prop := {
+  d_g1 : forall j, (j < qhead s)%nat -> exists x, nth_error (qall s) j = Some (Some x) /\
+            (In x (map fst (calls s)) \/ In x (skipn (cpos (col s)) (ctasks (col s))) \/ In x (gone s)) }.
+
+Lemma invD_init : forall bits progs, InvD (init bits progs).
+Proof. intros bits progs. constructor. cbn. intros j H. lia. Qed.
+
+Lemma chunk_all : forall l r k r' d x, chunk_cb l r = (k, r', d) -> In x l -> In x k \/ In x d.
+Proof. intros l r k r' d x H Hx. apply chunk_cb_spec in H as (-> & _). apply in_app_or in Hx. exact Hx. Qed.
+
+Lemma stepD_g1 : forall s t s', InvA s -> InvC s -> InvD s -> gstep kc s t = Some s' ->
+  forall j, (j < qhead s')%nat -> exists x, nth_error (qall s') j = Some (Some x) /\
+    (In x (map fst (calls s')) \/ In x (skipn (cpos (col s')) (ctasks (col s'))) \/ In x (gone s')).
+Proof.
+  intros s t s' I C D H j Hj. pose proof (d_g1 _ D) as G. pose proof (c_k2 _ C) as K2.
+  assert (ST : forall j x, nth_error (qall s) j = Some (Some x) -> nth_error (qall s') j = Some (Some x)) by (intros; eapply pub_stable; eauto).
+  destruct index_consts as [X1 X2].
+  step_cases H; try use_consume s; unfold cpos in *; simp; try (apply G; assumption).
+  all: try rewrite Hcp in G.
+  all: try (destruct (G j Hj) as (x9 & Hx & O); exists x9; split; [apply ST; assumption | exact O]; fail).
+  all: try (rewrite ?Nat.add_0_r; apply G; assumption).
+  all: try (rewrite index_advance_spec; apply G; assumption).
+  all: try ((* a call *) destruct (G j Hj) as (x9 & Hx & [O|[O|O]]); exists x9; (split; [assumption|]); auto;
+            [ left; rewrite map_app; apply in_or_app; auto
+            | match goal with N : nth_error (ctasks (col _)) _ = Some _ |- _ => rewrite (skipn_cur _ _ _ _ N) in O end;
+              destruct O as [<-|O]; [left; rewrite map_app; apply in_or_app; right; left; reflexivity
+                                   | right; left; replace (cindex (col s) + S r)%nat with (S (cindex (col s) + r)) by lia; exact O] ]; fail).
+  - (* restart *) destruct (G j Hj) as (x & Hx & [O|[O|O]]); exists x; (split; [assumption|]); auto.
+    + right; right. apply in_or_app. right. exact O.
+    + right; right. apply in_or_app. left. exact O.
+  - (* consume *) specialize (K2 eq_refl). rewrite X2. cbn [skipn].
+    destruct (Nat.lt_ge_cases j (qhead s)) as [Lt|Ge].
+    + destruct (G j Lt) as (x & Hx & [O|[O|O]]); exists x; (split; [assumption|]); auto.
+      * rewrite skipn_all2 in O by lia. destruct O.
+      * right; right. apply in_or_app; auto.
+    + destruct (nth_error (got s) (j - qhead s)) as [x|] eqn:E; [|apply nth_error_None in E; lia].
+      exists x. split; [apply got_published in E; replace (qhead s + (j - qhead s))%nat with j in E by lia; exact E|].
+      apply nth_error_In in E. rewrite <- (firstn_skipn n1 (got s)) in E. apply in_app_or in E as [E|E].
+      * destruct (chunk_all _ _ _ _ _ _ E1 E) as [O|O]; [right; left; apply in_or_app; auto | right; right; apply in_or_app; right; apply in_or_app; auto].
+      * destruct (chunk_all _ _ _ _ _ _ E2 E) as [O|O]; [right; left; apply in_or_app; auto | right; right; apply in_or_app; right; apply in_or_app; auto].
+Qed.
+
+Lemma invACD_reach : forall bits progs s, Reach kc bits progs s -> InvA s /\ InvC s /\ InvD s.
+Proof.
+  intros bits progs s R. eapply (inv_reachable st (gstep kc) (fun s => InvA s /\ InvC s /\ InvD s)); eauto.
+  - split; [apply invA_init | split; [apply invC_init | apply invD_init]].
+  - intros s0 t s1 (I & C & D) H. split; [eapply invA_step | split; [eapply invC_step | constructor; eapply stepD_g1]]; eauto.
+Qed.
+
+(* ---- the repaired loop: keep going while tasks are pending ---- *)
+Section Fixed.
+Hypothesis Hfix : forall r i n, kc r i n = r || Nat.ltb i n.
+
+Record InvF (s : st) : Prop := {
+  f_x1 : cp (col s) = CExited -> (length (ctasks (col s)) <= cindex (col s))%nat /\ crunning (col s) = false;
+  f_x2 : joinable (col s) = false -> cp (col s) = CExited \/ (cp (col s) = CNotStarted /\ ctasks (col s) = []);
+  f_x3 : crunning (col s) = false -> exists m, (m < qhead s)%nat /\ marker_at s m;
+  f_x4 : forall x, In x (gone s) -> is_marker x = true \/ exists m, (m < tk_ticket x)%nat /\ marker_at s m;
+  f_g5 : forall t th k n, nth_error (threads s) t = Some th -> In (RStop true k n) (results th) ->
+           exists m, (m < qhead s)%nat /\ marker_at s m /\ called_before s m }.
+
+Lemma invF_init : forall bits progs, InvF (init bits progs).
+Proof.
+  intros bits progs. destruct running_consts as (R1 & _). constructor; cbn.
+  - discriminate.
+  - intros _. right. auto.
+  - try rewrite R1. discriminate.
+  - intros x [].
+  - intros t th k n H. apply nth_error_In in H. apply in_map_iff in H as (p0 & <- & _). intros [].
+Qed.
+
+Lemma chunk_marker : forall l r k r' d, chunk_cb l r = (k, r', d) -> r' = false -> r = true -> exists y, In y l /\ is_marker y = true.
+Proof.
+  intros l r k r' d H F T. apply chunk_cb_spec in H as (-> & _ & [(-> & ->)|(m & d' & -> & M & _)]); [congruence|].
+  exists m. split; [apply in_or_app; right; left; reflexivity | assumption].
+Qed.
+
+Lemma got_in_idx : forall s y, InvC s -> In y (got s) -> (qhead s <= tk_ticket y < qhead s + length (got s))%nat /\ nth_error (qall s) (tk_ticket y) = Some (Some y).
+Proof.
+  intros s y C Hy. apply In_nth_error in Hy as [i Hi]. pose proof (got_published _ _ _ Hi) as P.
+  pose proof (c_q1 _ C _ _ P) as T. rewrite T. split; [|assumption].
+  assert (i < length (got s))%nat by (apply nth_error_Some; congruence). lia.
+Qed.
+
+Lemma discarded_behind_marker : forall s l r k r' d x, InvC s -> (forall y, In y l -> In y (got s)) ->
+  StronglySorted Nat.lt (map tk_ticket l) -> chunk_cb l r = (k, r', d) -> In x d ->
+  is_marker x = true \/ exists m, (m < tk_ticket x)%nat /\ marker_at s m.
+Proof.
+  intros s l r k r' d x C Sub S H Hx. apply chunk_cb_spec in H as (-> & _ & [(-> & _)|(m & d' & -> & M & _)]); [destruct Hx|].
+  destruct Hx as [<-|Hx]; [left; assumption | right].
+  rewrite map_app in S. apply ss_app_iff in S as (_ & S & _). cbn [map] in S. inversion S as [|? ? _ F]; subst.
+  rewrite Forall_forall in F. exists (tk_ticket m). split; [apply F; apply in_map; assumption|].
+  exists m. split; [|assumption]. apply (got_in_idx s m C). apply Sub. apply in_or_app. right. left. reflexivity.
+Qed.
+
+Lemma stepF : forall s t s', InvA s -> InvC s -> InvD s -> InvF s -> gstep kc s t = Some s' -> InvF s'.
+Proof.
+  intros s t s' I C D F H.
+  pose proof (fun m => marker_at_mono s t s' m I H) as MM. pose proof (qhead_mono _ _ _ H) as [QM _].
+  destruct running_consts as (R1 & R2 & R3). destruct index_consts as [X1 X2].
+  assert (X3' : crunning (col s) = false -> exists m, (m < qhead s')%nat /\ marker_at s' m).
+  { intro E. destruct (f_x3 _ F E) as (m & L & M). exists m. split; [lia | eapply MM; eauto]. }
+  assert (X4' : forall x, In x (gone s) -> is_marker x = true \/ exists m, (m < tk_ticket x)%nat /\ marker_at s' m).
+  { intros x Hx. destruct (f_x4 _ F x Hx) as [M|(m & L & M)]; [left; assumption | right; exists m; split; [assumption | eapply MM; eauto]]. }
+  assert (G5' : forall t th k n, nth_error (threads s) t = Some th -> In (RStop true k n) (results th) ->
+           exists m, (m < qhead s')%nat /\ marker_at s' m /\ called_before s' m).
+  { intros t2 th2 k n H1 H2. destruct (f_g5 _ F _ _ _ _ H1 H2) as (m & L & M & CB). exists m. split; [lia|]. split; [eapply MM; eauto|].
+    intros j x Lj Hj N. eapply calls_mono; eauto. unfold called_before in CB. apply (CB j x); [assumption | eapply pub_stable_rev; eauto; lia | eapply nmb_mono; eauto]. }
+  pose proof (f_x1 _ F) as X1o. pose proof (f_x2 _ F) as X2o.
+  constructor; revert X3' X4' G5' MM QM.
+  - (* x1 *) step_cases H; try use_consume s; simp; intros; try (apply X1o; assumption); try discriminate; try congruence.
+    all: try (destruct (sleep_needed _); discriminate).
+    rewrite Hfix in Heqb0. apply orb_false_iff in Heqb0 as [E1 E2]. apply Nat.ltb_ge in E2. auto.
+  - (* x2 *) step_cases H; try use_consume s; simp; intros; try (apply X2o; assumption); try discriminate; try congruence.
+    all: try (left; reflexivity).
+    all: try (try rewrite Hcp in X2o; destruct (X2o H) as [E|[E _]]; discriminate E).
+    all: try (destruct (sleep_needed _); try rewrite Hcp in X2o; destruct (X2o H) as [E|[E _]]; discriminate E).
+  - (* x3 *) step_cases H; try use_consume s; simp; intros X3' X4' G5' MM QM; try exact X3'; try (rewrite R1; discriminate).
+    intro E. subst r2.
+    assert (exists y, In y (got s) /\ is_marker y = true) as (y & Hy & My).
+    { destruct r1.
+      - destruct (chunk_marker _ _ _ _ _ E2 eq_refl eq_refl) as (y & Hy & My). exists y. split; [eapply In_skipn; eauto | assumption].
+      - destruct (chunk_marker _ _ _ _ _ E1 eq_refl R2) as (y & Hy & My). exists y. split; [eapply In_firstn; eauto | assumption]. }
+    destruct (got_in_idx s y C Hy) as [B P]. exists (tk_ticket y). split; [lia|]. exists y. auto.
+  - (* x4 *) step_cases H; try use_consume s; simp; intros X3' X4' G5' MM QM; try exact X4'.
+    + (* restart: nothing is pending under the repaired loop *)
+      intros x Hx. apply in_app_or in Hx as [Hx|Hx]; [apply X4'; assumption|]. exfalso.
+      assert (J : cp (col s) = CExited \/ (cp (col s) = CNotStarted /\ ctasks (col s) = [])) by (apply X2o; first [assumption | reflexivity]).
+      destruct J as [E|[E N]]; unfold cpos in Hx; rewrite E in Hx.
+      * destruct (X1o E) as [L _]. rewrite skipn_all2 in Hx by assumption. destruct Hx.
+      * rewrite N in Hx. destruct (cindex (col s)); destruct Hx.
+    + (* consume *)
+      intros x Hx. apply in_app_or in Hx as [Hx|Hx]; [apply X4'; assumption|].
+      pose proof (got_tickets s C) as T. pose proof (ss_seq (length (got s)) (qhead s)) as S. rewrite <- T in S.
+      rewrite <- (firstn_skipn n1 (got s)), map_app in S. apply ss_app_iff in S as (Sa & Sb & _).
+      apply in_app_or in Hx as [Hx|Hx].
+      * eapply (discarded_behind_marker s); [exact C | | exact Sa | exact E1 | exact Hx]. intros y Hy. eapply In_firstn; eauto.
+      * eapply (discarded_behind_marker s); [exact C | | exact Sb | exact E2 | exact Hx]. intros y Hy. eapply In_skipn; eauto.
+  - (* g5 *) intros X3' X4' G5' MM QM t2 th2 k n H1 H2. revert H1 H2.
+    step_cases H; try use_consume s; simp; try (apply G5'); rewrite nth_error_lookup; destruct (Nat.eqb_spec t2 t) as [->|N]; try (apply G5');
+      rewrite Hth; intros H1 H2; injection H1 as <-; simp; try (eapply G5'; eassumption).
+    all: try (apply in_app_or in H2 as [H2|[H2|[]]]; [eapply G5'; eassumption | try discriminate H2]).
+    all: try (destruct stop; simp; try (apply in_app_or in H2 as [H2|[H2|[]]]; [|discriminate H2]); eapply G5'; eassumption).
+    (* the join *)
+    injection H2 as <- <-. destruct (X1o eq_refl) as [L Rn]. destruct (f_x3 _ F Rn) as (m & Lm & Mm).
+    exists m. split; [assumption|]. split; [exact Mm|].
+    intros j x Lj Hj Nm. destruct (d_g1 _ D j ltac:(lia)) as (x' & Hx' & O). simp. rewrite Hx' in Hj. injection Hj as ->.
+    destruct O as [O|[O|O]]; [exact O | exfalso | exfalso].
+    + unfold cpos in O. rewrite Hcp in O. rewrite skipn_all2 in O by assumption. destruct O.
+    + destruct (f_x4 _ F _ O) as [M|(m' & L' & (y & Hy & My))].
+      * rewrite (Nm j x) in M; [discriminate | lia | assumption].
+      * rewrite (c_q1 _ C _ _ Hx') in L'. rewrite (Nm m' y) in My; [discriminate | lia | assumption].
+Qed.
+
+Lemma invF_reach : forall bits progs s, Reach kc bits progs s -> InvA s /\ InvC s /\ InvD s /\ InvF s.
+Proof.
+  intros bits progs s R. eapply (inv_reachable st (gstep kc) (fun s => InvA s /\ InvC s /\ InvD s /\ InvF s)); eauto.
+  - split; [apply invA_init | split; [apply invC_init | split; [apply invD_init | apply invF_init]]].
+  - intros s0 t s1 (I & C & D & F) H.
+    split; [eapply invA_step | split; [eapply invC_step | split; [constructor; eapply stepD_g1 | eapply stepF]]]; eauto.
+Qed.
+
+Lemma fixed_stop_complete : forall bits progs s, Reach kc bits progs s -> stop_complete s.
+Proof.
+  intros bits progs s R. destruct (invF_reach _ _ _ R) as (I & C & D & F).
+  intros t th k n H1 H2 j x Lj Hj N. destruct (f_g5 _ F _ _ _ _ H1 H2) as (m & Lm & (y & Hy & My) & CB).
+  destruct (Nat.lt_ge_cases j m) as [Lt|Ge]; [unfold called_before in CB; apply (CB j x); assumption|].
+  exfalso. rewrite (N m y) in My; [discriminate | lia | assumption].
+Qed.
+End Fixed.
 End Proofs.
 
 (* ======================================================================================== *)
 (* theorems in the form Properties_C10.v states them                                         *)
 (* ======================================================================================== *)
+Theorem gc_at_most_once : forall kc bits progs s, Reach kc bits progs s ->
+  StronglySorted Nat.lt (map tk_ticket (map fst (calls s))) /\
+  forall x, In x (map fst (calls s)) -> nth_error (qall s) (tk_ticket x) = Some (Some x).
+Proof.
+  intros kc bits progs s R. destruct (invAC_reach kc _ _ _ R) as [I C]. split.
+  - destruct (c_k1 _ C) as [S _]. unfold seqt in S. apply ss_app_iff in S. tauto.
+  - intros x Hx. apply (c_c2 _ C) in Hx. apply In_nth_error in Hx as [j Hj]. rewrite (c_q1 _ C _ _ Hj). exact Hj.
+Qed.
+
+Corollary gc_calls_nodup : forall kc bits progs s, Reach kc bits progs s -> NoDup (map tk_ticket (map fst (calls s))).
+Proof. intros kc bits progs s R. apply ss_nodup. apply (gc_at_most_once kc bits progs s R). Qed.
+
+(* one ticket per retire()/stop() call: the ticket identifies the call *)
+Theorem gc_ticket_is_position : forall kc bits progs s, Reach kc bits progs s ->
+  forall j x, nth_error (qall s) j = Some (Some x) -> tk_ticket x = j.
+Proof. intros kc bits progs s R. destruct (invAC_reach kc _ _ _ R) as [I C]. exact (c_q1 _ C). Qed.
+
+Theorem gc_no_task_lost : forall kc bits progs s, Reach kc bits progs s ->
+  forall j, (j < qhead s)%nat -> exists x, nth_error (qall s) j = Some (Some x) /\
+    (In x (map fst (calls s)) \/ In x (skipn (cpos (col s)) (ctasks (col s))) \/ In x (gone s)).
+Proof. intros kc bits progs s R. destruct (invACD_reach kc _ _ _ R) as (I & C & D). exact (d_g1 _ D). Qed.
+
+Theorem gc_all_before_stop : forall kc, (forall r i n, kc r i n = r || Nat.ltb i n) ->
+  forall bits progs s, Reach kc bits progs s -> stop_complete s.
+Proof. intros kc Hfix bits progs s R. exact (fixed_stop_complete kc Hfix bits progs s R). Qed.
+
+Theorem gc_all_before_stop_fixed_loop : forall bits progs s, Reach fixed_kc bits progs s -> stop_complete s.
+Proof. apply gc_all_before_stop. reflexivity. Qed.
+
+(* the loop condition of the current source is one of the two forms (the proof picks whichever the regenerated text is) *)
+Lemma src_kc_form : (forall r i n, src_kc r i n = r) \/ (forall r i n, src_kc r i n = r || Nat.ltb i n).
+Proof.
+  first [ left; intros [] i n; reflexivity
+        | right; intros [] i n; unfold src_kc, keep_looping, b2z; cbn [negb orb Z.eqb];
+          [ reflexivity | destruct (Nat.ltb_spec i n); [apply Z.ltb_lt | apply Z.ltb_ge]; lia ] ].
+Qed.
+
 Theorem gc_never_early : forall kc bits progs s, Reach kc bits progs s -> early s = false.
 Proof. intros kc bits progs s R. exact (a_early _ (invA_reach kc _ _ _ R)). Qed.
 
@@ -513,8 +929,8 @@ Proof.
   exists 1%nat, f2_progs, (run st step (init 1 f2_progs) f2_sched).
   split; [exact f2_single_stop|]. split; [exists f2_sched; reflexivity|]. split; [vm_compute; reflexivity|].
   split; [vm_compute; reflexivity|]. intro C. unfold stop_complete in C. vm_compute in C.
-  specialize (C 0%nat _ 1%nat 0%nat eq_refl (or_intror (or_intror (or_introl eq_refl))) 0%nat _ (le_n 1) eq_refl eq_refl).
-  exact C.
+  specialize (C 0%nat _ 1%nat 0%nat eq_refl (or_intror (or_intror (or_introl eq_refl))) 0%nat _ (le_n 1) eq_refl).
+  apply C. intros [|j] y Hj Hy; [injection Hy as <-; reflexivity | lia].
 Qed.
 
 Theorem gc_retire_racing_stop_refuted :
@@ -527,4 +943,22 @@ Proof.
   split; [exists race_sched; reflexivity|].
   split; [vm_compute; reflexivity|]. split; [vm_compute; reflexivity|].
   split; [vm_compute; tauto|]. split; [vm_compute; reflexivity|]. split; [vm_compute; tauto | vm_compute; tauto].
+Qed.
+
+(* non-vacuity of the positive stop theorem: with the repaired loop the F2 schedule makes stop() wait for the unlock *)
+Definition fixed_sched : list nat := [1;1; 0;0;0;0;0;0; 2;2;2;2;2;2;2;2; 1; 2;2;2;2;2;2;2;2;2;2; 0]%nat.
+Lemma fixed_example : exists s, Reach fixed_kc 1 f2_progs s /\ all_done s = true /\ length (calls s) = 1%nat /\
+  exists th, nth_error (threads s) 0 = Some th /\ In (RStop true 1 1) (results th).
+Proof.
+  exists (run st step_fixed (init 1 f2_progs) fixed_sched). split; [exists fixed_sched; reflexivity|].
+  split; [vm_compute; reflexivity|]. split; [vm_compute; reflexivity|].
+  eexists. split; [vm_compute; reflexivity|]. vm_compute. tauto.
+Qed.
+
+(* non-vacuity of the queue theorems: capacity 1, the second retire() of a thread is blocked behind the first *)
+Lemma blocked_example : exists s t th x b, Reach src_kc 0 [[ORetire; ORetire]] s /\ nth_error (threads s) t = Some th /\
+  tpc th = PPublish x b /\ step s t = None.
+Proof.
+  exists (run st step (init 0 [[ORetire; ORetire]]) [0;0;0;0;0]%nat), 0%nat. eexists. eexists. eexists.
+  split; [exists [0;0;0;0;0]%nat; reflexivity|]. split; [vm_compute; reflexivity|]. split; vm_compute; reflexivity.
 Qed.
